@@ -154,6 +154,33 @@ theorem SessInvD_congr (s s' : P2P) (gh : DGhost) (t0 : TLState) (reqs : List Re
     by rw [hc.sync, hc.statuses, hc.disconnectFrame]; exact h.safe, by rw [hc.disconnectFrame]; exact h.dfok,
     by rw [hc.sync]; exact h.deadClean, by rw [hc.sparse, hc.sync, hc.statuses]; exact h.saved⟩
 
+/-- The invariant only reads these parts of the session. -/
+theorem SessInvD_sameQueues (s s2 : P2P) (gh : DGhost) (t : TLState) (reqs : List Request) (st0 : List ConnStatus)
+    (h : SessInvD s gh t reqs st0)
+    (hq : s2.sync.queues = s.sync.queues) (hc : s2.sync.currentFrame = s.sync.currentFrame)
+    (hls : s2.sync.lastSavedFrame = s.sync.lastSavedFrame)
+    (hp : s2.pred = s.pred) (hst : s2.localConnectStatus = s.localConnectStatus) (hh : s2.handles = s.handles)
+    (hsp : s2.sparse = s.sparse) (hdf : s2.disconnectFrame = s.disconnectFrame) :
+    SessInvD s2 gh t reqs st0 := by
+  have hlp : s2.localPlayerHandles = s.localPlayerHandles := by unfold P2P.localPlayerHandles; rw [hh]
+  refine ⟨⟨?_, by rw [hc]; exact h.tinv.exec, by rw [hq]; exact h.tinv.rows, by rw [hq, hc]; exact h.tinv.deadRows⟩,
+    by rw [hst]; exact h.marks, by rw [hq, hc, hst]; exact h.asked, by rw [hq, hc, hst, hdf]; exact h.pend,
+    by rw [hq, hst]; exact h.status, by rw [hq, hst, hlp]; exact h.remote, by rw [hst, hlp]; exact h.localAlive,
+    by rw [hq, hst, hdf]; exact h.safe, by rw [hdf]; exact h.dfok, by rw [hq]; exact h.deadClean,
+    by rw [hsp, hq, hst, hls]; exact h.saved⟩
+  rw [hp]
+  exact SyncInvD_congr h.tinv.sync hq hc
+
+theorem SessInvD_userExecute (s : P2P) (gh : DGhost) (t0 : TLState) (reqs : List Request) (st0 : List ConnStatus)
+    (saves : List (Frame × Option Nat)) (h : SessInvD s gh t0 reqs st0) : SessInvD (s.userExecute saves) gh t0 reqs st0 := by
+  obtain ⟨uq, uc, _, up, ust, uh, usp⟩ := userExecute_fields s saves
+  exact SessInvD_sameQueues s _ gh t0 reqs st0 h uq uc (userExecute_lastSaved s saves) up ust uh usp rfl
+
+theorem SessInvD_pending (s : P2P) (gh : DGhost) (t0 : TLState) (reqs : List Request) (st0 : List ConnStatus)
+    (l : List (Nat × PlayerInput)) (h : SessInvD s gh t0 reqs st0) :
+    SessInvD { s with pendingLocalInputs := l } gh t0 reqs st0 :=
+  ⟨h.tinv, h.marks, h.asked, h.pend, h.status, h.remote, h.localAlive, h.safe, h.dfok, h.deadClean, h.saved⟩
+
 /-- `confirmed_frame` is at most every connected player's last frame. -/
 theorem confirmedFrame_leD (s : P2P) (c : Frame) (h : s.confirmedFrame = .ok c) :
     ∀ p, p < s.localConnectStatus.length → (rget s.localConnectStatus p).disconnected = false →
